@@ -8,15 +8,15 @@
                     carries a reading;  ts_route / ts_build = the construction routes (NewTimestampType of times in any
                     zone with or without a reading; Timestamp[...] / the meta type with a Timestamp value, a parsed text or
                     hash, an Integer, default);  ts_denote = the two instants a route denotes
-   sptype         = TimespanType{min, max} (int64 ns);  sp_equals, sp_key render (render = SerializationString(), oracle)
+   sptype         = TimespanType{min, max} (int64 ns);  sp_equals, sp_key sp_text (sp_text = SerializationString(), modelled)
    rttype         = RuntimeType{runtime, name, pattern, goType} (goType: the identity of a reflect.Type);  rt_equals;
                     rt_key o (o: String(), PkgPath() and %p of a reflect.Type, oracles);  rt_wf = Go strings (< 2^64 bytes)
 
    The assumptions on the oracles are hypotheses of the statements (nothing is assumed globally): the text of a time
-   in UTC / of a duration determines the instant / the duration; texts are Go strings; PkgPath() and %p hold no byte
+   in UTC determines the instant; texts are Go strings; PkgPath() and %p hold no byte
    <= 4, %p holds no '#', different type descriptors have different addresses. *)
 From Coq Require Import ZArith NArith Bool String List.
-From PcoreV Require Import Model.Base Model.Keys Model.KeysRich Proofs.KeysCode Proofs.KeysRichProofs.
+From PcoreV Require Import Model.Base Model.Keys Model.KeysRich Proofs.KeysCode Proofs.KeysRichProofs Proofs.KeysRichText.
 Import ListNotations.
 Open Scope Z_scope.
 
@@ -83,11 +83,16 @@ Theorem C07_timespan_type_laws : forall a b c,
 Proof. intros a b c. split; [exact (sp_equals_refl a)|]. split; [exact (sp_equals_sym a b)|exact (sp_equals_trans a b c)]. Qed.
 Print Assumptions C07_timespan_type_laws.
 
-Theorem C07_timespan_type_key_iff_eq : forall render : Z -> str,
-  (forall a b, render a = render b -> a = b) -> (forall d, lenok (render d) = true) ->
-  forall a b, sp_key render a = sp_key render b <-> sp_equals a b = true.
-Proof. exact sp_key_iff_eq. Qed.
+(* the same hash key exactly when equal; sp_text is the modelled SerializationString (sign, seconds, '.', nine digits):
+   no oracle - the text of a duration is proved to determine it (C07_timespan_text_determines_duration) *)
+Theorem C07_timespan_type_key_iff_eq : forall a b, sp_wf a = true -> sp_wf b = true ->
+  (sp_key sp_text a = sp_key sp_text b <-> sp_equals a b = true).
+Proof. exact sp_key_text_iff_eq. Qed.
 Print Assumptions C07_timespan_type_key_iff_eq.
+
+Theorem C07_timespan_text_determines_duration : forall a b, sp_text a = sp_text b -> a = b.
+Proof. exact sp_text_inj. Qed.
+Print Assumptions C07_timespan_text_determines_duration.
 
 (* two routes whose bounds denote the same durations build the same type *)
 Theorem C07_timespan_type_route_not_observable : forall r1 r2, sp_denote r1 = sp_denote r2 -> sp_build r1 = sp_build r2.
@@ -98,8 +103,10 @@ Example C07_ex_timespan_type :
   sp_build (SRNew2 (SInt 1) None) = sp_build (SRNew 1000000000 max_int64) /\
   sp_build (SRNew2 (SParsed 1500000000) (Some SDefault)) = sp_build (SRNew2 (SValue 1500000000) None) /\
   sp_equals (sp_build (SRNew2 (SInt 1) None)) (sp_build (SRNew2 (SParsed 1500000000) None)) = false /\
-  sp_params k_int (sp_build SRDefault) = [] /\
-  sp_key k_int (sp_build (SRNew2 (SInt 1) None)) <> sp_key k_int (sp_build (SRNew2 (SParsed 1500000000) None)).
+  sp_params sp_text (sp_build SRDefault) = [] /\
+  sp_text (-1500000000) = bytes_of "-1.500000000" /\ sp_text 86400000000001 = bytes_of "86400.000000001" /\
+  sp_text min_int64 = bytes_of "-9223372036.854775808" /\
+  sp_key sp_text (sp_build (SRNew2 (SInt 1) None)) <> sp_key sp_text (sp_build (SRNew2 (SParsed 1500000000) None)).
 Proof. repeat split; vm_compute; try reflexivity. discriminate. Qed.
 
 (* ------------------------------------------------------------------------------------------ *)
